@@ -213,7 +213,7 @@ public:
 	{
 		if(event != io_events::in && event !=io_events::out)
 			throw booster::invalid_argument("Invalid argument to set_io_event");
-		io_event_setter setter = { fd,event,h,this,false };
+		io_event_setter setter = { fd,event,h,this,false,0 };
 		set_event(setter);
 	}
 
@@ -364,8 +364,9 @@ private:
 
 	struct io_data {
 		int current_event;
+		unsigned generation; // cancel_generation_ of the descriptor when the waits were registered
 		event_handler readable,writeable;
-		io_data() : current_event(0) {}
+		io_data() : current_event(0), generation(0) {}
 	};
 
 	//
@@ -403,6 +404,9 @@ private:
 	std::deque<completion_handler> dispatch_queue_;
 	// set_io_event/cancel_io_events requests queued and not executed yet
 	int queued_requests_;
+	// counts the cancel_io_events() calls per descriptor: a queued wait that was requested before
+	// the latest of them is cancelled as well, the number may belong to another descriptor by the time it runs
+	socket_map<unsigned> cancel_generation_;
 
 	void closesocket(native_type fd)
 	{
@@ -467,11 +471,19 @@ private:
 		event_handler h;
 		event_loop_impl *self_;
 		bool queued_;
+		unsigned generation;
 		void operator()()
 		{
 			lock_guard l(self_->data_mutex_);
 			if(queued_)
 				self_->queued_requests_--;
+
+			if(self_->map_.is_valid(fd) && self_->cancel_generation_[fd] != generation) {
+				// cancel_io_events() was called after this wait had been requested
+				system::error_code e(aio_error::canceled,aio_error_cat);
+				self_->dispatch_queue_.push_back(completion_handler(h,e));
+				return;
+			}
 			
 			if(!self_->map_.is_valid(fd) || fd == self_->interrupter_.get_fd())
 			{
@@ -489,6 +501,7 @@ private:
 			self_->reactor_->select(fd,new_event,e);
 			if(!e) {
 				self_->map_[fd].current_event = new_event;
+				self_->map_[fd].generation = generation;
 				event_handler &slot = (event == io_events::in) ? self_->map_[fd].readable : self_->map_[fd].writeable;
 				if(slot) {
 					// a wait of this kind is pending already: it is replaced, its handler is told so rather than dropped
@@ -556,9 +569,27 @@ private:
 			f();
 		}
 	}
+	void set_event(io_event_setter &f)
+	{
+		lock_guard l(data_mutex_);
+		if(map_.is_valid(f.fd))
+			f.generation = cancel_generation_[f.fd];
+		if(polling_ || !reactor_.get() || !dispatch_queue_.empty() || queued_requests_ > 0) {
+			f.queued_ = true;
+			queued_requests_++;
+			dispatch_queue_.push_back(completion_handler(f));
+			if(reactor_.get())
+				wake();
+		}
+		else {
+			f();
+		}
+	}
 	void set_event(io_event_canceler &f)
 	{
 		lock_guard l(data_mutex_);
+		if(map_.is_valid(f.fd))
+			cancel_generation_[f.fd]++;
 		if(!f.cancelation_is_needed_with_data_mutex_locked())
 			return;
 		if(polling_ || !reactor_.get() || !dispatch_queue_.empty() || queued_requests_ > 0) {
@@ -688,6 +719,11 @@ private:
 			using booster::system::error_code;
 
 			io_data &cont = map_[evs[i].fd];
+
+			// A cancel for this descriptor is still queued: it completes the handlers. The descriptor may
+			// have been closed and its number taken by another one already, whose events these are.
+			if(map_.is_valid(evs[i].fd) && cancel_generation_[evs[i].fd] != cont.generation)
+				continue;
 			
 			int new_events = cont.current_event;
 
